@@ -10,6 +10,11 @@ CHECKS = {
          "Trusts the `time` crate for building OffsetDateTime inputs; date validity is decided by an independent leap-year rule. Archive part trusts the independent builder/parser in harness/src/refzip.",
          "DESIGN.md §4 C18"),
 }
+CHECKS["C01"] = ("exploration",
+  "model-based round trip: proptest-generated writer programs vs. an executable reference model, read back through the seekable reader; differential finish() vs drop",
+  "Generated legal writer programs (all entry kinds, methods x documented levels, names incl. UTF-8/NUL/backslash/empty/duplicates/16-bit boundary lengths, any valid timestamp, any permission bits, large_file, comments to 65535 bytes, hundreds to >65535 entries in thorough) are executed twice (finish and drop) and read back with varied caller buffers; every accessor is compared with a reference model of the program and an independent CRC-32. Failures shrink to a minimal program saved as a replay file.",
+  "Third-party codecs (flate2, bzip2, zstd) are trusted; content/CRC oracle is independent of the crate. Symmetric reader/writer mistakes are the business of C02/C03.",
+  "DESIGN.md §4 C01")
 PENDING = {}
 props = [json.loads(l) for l in open(os.path.join(ROOT, "properties.jsonl"))]
 checks = []
